@@ -44,6 +44,8 @@ type batchOut struct {
 	Calls       int64          `json:"calls"`
 	Sigs        []uint64       `json:"sigs"`
 	IdleAdds    int64          `json:"runs_with_adds_while_a_worker_was_idle"`
+	Rendezvous  int64          `json:"rendezvous_runs_completed"`
+	RvWidthMax  int64          `json:"widest_rendezvous"`
 	MaxInflight int64          `json:"max_inflight_seen"`
 	Violations  []runViolation `json:"violations"`
 	LastSpec    runSpec        `json:"last_spec"`
@@ -79,6 +81,12 @@ func children(spec runSpec, i int) []int {
 				out = append(out, c)
 			}
 		}
+	case 5: // rendezvous fan: item 0 adds min(n,M)-1 children back to back; all of them wait for each other
+		if i == 0 {
+			for j := 1; j <= rvWidth(spec)-1; j++ {
+				out = append(out, j)
+			}
+		}
 	default: // bursts: every 7th item adds a block
 		if i%7 == 0 {
 			for j := i + 1; j < i+7 && j < spec.M; j++ {
@@ -89,6 +97,17 @@ func children(spec runSpec, i int) []int {
 		}
 	}
 	return out
+}
+
+// rvWidth: number of calls of f that must be in progress together in a rendezvous run
+// (never more than n, so a correct Work can always provide them: every runner that is
+// not inside f takes a queued item sooner or later - unless its wake-up was lost).
+func rvWidth(spec runSpec) int {
+	k := spec.N
+	if spec.M < k {
+		k = spec.M
+	}
+	return k
 }
 
 func reachable(spec runSpec) map[int]bool {
@@ -116,6 +135,8 @@ func reachable(spec runSpec) map[int]bool {
 var flushOut func()
 var outMu sync.Mutex
 
+var rendezvousRuns int64 // calls that passed a rendezvous (shape 5)
+
 var lateCalls int64 // calls of f observed after their Do had returned (any run of this batch)
 
 func perturb(x uint64) {
@@ -135,6 +156,8 @@ func oneRun(spec runSpec, out *batchOut) {
 	finished := make([]int32, spec.M)
 	var inflight, high, returned, idleAdds int64
 	var order []int32
+	var rvArrived int64
+	rvAll := make(chan struct{})
 	omu := &outMu
 	var w par.Work
 	for _, r := range spec.Roots {
@@ -174,14 +197,28 @@ func oneRun(spec runSpec, out *batchOut) {
 		fmt.Fprintf(hh, "p/%d/%d", spec.Seed, i)
 		x := hh.Sum64()
 		perturb(x)
+		if spec.Shape == 5 && i == 0 && x%3 != 0 {
+			// give the other runners time to go idle (parked in Wait) before the burst of Adds
+			time.Sleep(time.Duration(100+x%400) * time.Microsecond)
+		}
 		for k, c := range children(spec, i) {
 			if atomic.LoadInt64(&inflight) < int64(spec.N) {
 				atomic.AddInt64(&idleAdds, 1)
 			}
 			w.Add(c)
-			if k%2 == 0 {
+			if k%2 == 0 && (spec.Shape != 5 || x%5 == 0) {
 				perturb(x >> uint(k+3))
 			}
+		}
+		if spec.Shape == 5 {
+			// every call of this run waits until all rvWidth calls have started: an item left in
+			// the queue while a runner sleeps (lost wake-up) is then a deadlock, which the runtime
+			// (non-race build) or the goroutine dump (race build) proves
+			if atomic.AddInt64(&rvArrived, 1) == int64(rvWidth(spec)) {
+				close(rvAll)
+			}
+			<-rvAll
+			atomic.AddInt64(&rendezvousRuns, 1)
 		}
 		perturb(x >> 17)
 		atomic.StoreInt32(&finished[i], 1)
@@ -214,6 +251,12 @@ func oneRun(spec runSpec, out *batchOut) {
 	if idleAdds > 0 {
 		out.IdleAdds++
 	}
+	if spec.Shape == 5 {
+		out.Rendezvous++
+		if int64(rvWidth(spec)) > out.RvWidthMax {
+			out.RvWidthMax = int64(rvWidth(spec))
+		}
+	}
 	if high > out.MaxInflight {
 		out.MaxInflight = high
 	}
@@ -225,7 +268,7 @@ func oneRun(spec runSpec, out *batchOut) {
 }
 
 func genSpec(rng *rand.Rand) runSpec {
-	s := runSpec{Seed: rng.Int63(), Shape: rng.Intn(5)}
+	s := runSpec{Seed: rng.Int63(), Shape: rng.Intn(6)}
 	s.M = []int{1, 2, 3, 5, 8, 20, 60, 200}[rng.Intn(8)]
 	s.N = []int{1, 2, 3, 4, 8, 64}[rng.Intn(6)]
 	nr := 1 + rng.Intn(4)
@@ -237,6 +280,12 @@ func genSpec(rng *rand.Rand) runSpec {
 	}
 	if s.Shape == 2 || s.Shape == 3 {
 		s.Roots[0] = 0
+	}
+	if s.Shape == 5 {
+		s.Roots = []int{0}
+		if rng.Intn(3) == 0 {
+			s.Roots = []int{0, 0}
+		}
 	}
 	return s
 }
@@ -290,7 +339,7 @@ func main() {
 		return
 	}
 	vlib.Main("C09", "exploration", 15*time.Minute, func(r *vlib.Run) {
-		r.Rule("runs of Work.Do over deterministic item graphs (1-200 items; shapes: random fan-out with duplicates/self/back edges, chain, wide fan with back-edges, binary tree with duplicate adds, bursts), 1-5 roots added before Do (with duplicates), n in {1,2,3,4,8,64}; f perturbs itself (Gosched / spin / sleep) at entry, between Adds and at exit; each batch runs in a child process, once in a non-race build (the runtime's deadlock detector is the termination oracle) and once in a race build (watchdog + goroutine-dump classification), GOMAXPROCS in {1,2,4,16}. Distinct non-trivial = distinct item start-order signatures observed.")
+		r.Rule("runs of Work.Do over deterministic item graphs (1-200 items; shapes: random fan-out with duplicates/self/back edges, chain, wide fan with back-edges, binary tree with duplicate adds, bursts, rendezvous fan: one call adds min(n,items)-1 items back to back and all these calls wait for each other, so a lost wake-up is a deadlock), 1-5 roots added before Do (with duplicates), n in {1,2,3,4,8,64}; f perturbs itself (Gosched / spin / sleep) at entry, between Adds and at exit; each batch runs in a child process, once in a non-race build (the runtime's deadlock detector is the termination oracle) and once in a race build (watchdog + goroutine-dump classification), GOMAXPROCS in {1,2,4,16}. Distinct non-trivial = distinct item start-order signatures observed.")
 		r.Assume("interleavings are sampled, not enumerated (the statement's quantifier asks for a controlled scheduler, which is a different technique): a bug that needs one specific rare order can be missed")
 		base := vlib.Scratch()
 		build := os.Getenv("VERIF_BUILD")
@@ -393,6 +442,10 @@ func main() {
 			runs += bo.Runs
 			calls += bo.Calls
 			idle += bo.IdleAdds
+			r.Count("rendezvous_runs_completed", bo.Rendezvous)
+			if bo.RvWidthMax > r.Counter("widest_rendezvous") {
+				r.Count("widest_rendezvous", bo.RvWidthMax-r.Counter("widest_rendezvous"))
+			}
 			if bo.MaxInflight > maxInflight {
 				maxInflight = bo.MaxInflight
 			}
